@@ -10,7 +10,7 @@ open RNacos.Driver
 def step (_ : Unit) (ws : List String) : Unit × String :=
   match ws with
   | "up" :: _ => ((), "ok")
-  | ["upauth", _] => ((), "ok")
+  | ["upauth", _] => ((), "*")         -- whether the node comes up is not modelled (the oracle: not up = nothing to judge)
   | ["login", _, _] => ((), "*")
   | ["tget", _, _, _] => ((), "status *")
   | ["tpub", _, _, _, _] => ((), "status *")
